@@ -25,6 +25,7 @@ def cases(draw):
         ctxs.append({
             "m": m,
             "streamline": draw(st.integers(0, 3)) == 0,
+            "reuse": draw(st.integers(0, 2)) == 0,  # re-enter the previous Calibration object instead of a fresh one
             "batches": draw(st.lists(st.tuples(st.integers(-3, 3), st.sampled_from(["normal", "normal", "normal", "absmax-is-qmax", "same"])), min_size=1, max_size=4)),
         })
     return {
@@ -128,10 +129,15 @@ def _exec_case(case):
     momenta = []
     last_batch = None
     try:
+        prev_ctx = None
         for ci, cx in enumerate(case["contexts"]):
-            mom = cx["m"]
+            if cx.get("reuse") and prev_ctx is not None:
+                ctx, mom = prev_ctx  # the same object entered again: its own momentum applies
+            else:
+                mom = cx["m"]
+                ctx = Calibration(momentum=mom, streamline=cx["streamline"])
+            prev_ctx = (ctx, mom)
             momenta.append(mom)
-            ctx = Calibration(momentum=mom, streamline=cx["streamline"])
             with torch.set_grad_enabled(not case["no_grad"]):
                 ctx.__enter__()
             try:
@@ -243,7 +249,7 @@ def _exec_case(case):
             extra = scale_product_term(m0, m0.input_scale.detach().to(torch.float64), x_in, dtype)
             if float(raw.abs().max()) > so * G * (1 + 4 * u) + float(bound.max()) + extra + G * gen.ETA[dtype]:
                 out.fail("single-batch/output-saturates", f"{n0}: after one calibration batch the raw output's absmax {float(raw.abs().max()):.6g} exceeds output_scale * {G} = {so * G:.6g}")
-    out.fingerprint = [case["model"], case["aq"], case["wq"], case["dtype"], [(c["m"], c["streamline"], c["batches"]) for c in case["contexts"]]]
+    out.fingerprint = [case["model"], case["aq"], case["wq"], case["dtype"], [(c["m"], c["streamline"], c.get("reuse"), c["batches"]) for c in case["contexts"]]]
     big = len(mags) >= 2 and max(mags) > 2 * min(mags)
     out.nontrivial = (big and any(m != 0.9 for m in momenta)) or ("-" in case["model"] and nb >= 2) or len(case["contexts"]) >= 2
     out.klass = [f"model-{case['model']}", case["aq"], f"contexts{len(case['contexts'])}", f"batches{min(nb, 5)}"] + [f"momentum-{'default' if m == 0.9 else 'other'}" for m in set(momenta)] + [
